@@ -95,12 +95,12 @@ theorem cinv_enter {fx : Fix} {s s' : St} {m g key : Str} {p : Params} {orc : Or
     · cases hs
     · rename_i s1 e hce
       cases hs
-      obtain ⟨_, b, _, _, _, k⟩ := createEp_frame hce
+      obtain ⟨_, b, _, _, _, k, _⟩ := createEp_frame hce
       obtain ⟨l, c, i, _⟩ := createEp_frame2 hce
       exact cinv_congr hi l c k (by intro j; simp [St.obj, b]) (by intro x hx; rw [i] at hx; exact hx)
     · rename_i s1 rp k hce
       cases hs
-      obtain ⟨_, b, _, _, _, kk⟩ := createEp_frame hce
+      obtain ⟨_, b, _, _, _, kk, _⟩ := createEp_frame hce
       obtain ⟨l, c, i, _⟩ := createEp_frame2 hce
       have h1 : CInv s1 :=
         cinv_congr hi l c kk (by intro j; simp [St.obj, b]) (by intro x hx; rw [i] at hx; exact hx)
@@ -171,6 +171,38 @@ theorem cinv_step {fx : Fix} (hf : fx.closeOnFail = true) {s s' : St} {l : Label
           rw [obj_setObj]; split
           · exact hi.bounded _
           · exact hi.bounded j
+  | leaveEdit m gid =>
+    simp only [step] at hs
+    split at hs
+    · cases hs
+    · split at hs
+      · cases hs
+      · split at hs
+        · cases hs; exact cinv_setObj hi (hi.bounded gid) (fun h => h)
+        · split at hs
+          · cases hs; exact cinv_congr hi rfl rfl rfl (fun _ => rfl) (fun _ h => h)
+          · cases hs
+            by_cases hk : s.kind = .http
+            · have hnone : ∀ x, x ∈ s.inflight → False := by
+                intro x hx; exact (hi.held x.1 x.2 hx).1 hk
+              refine ⟨hi.noLimbo, ?_, fun c j hm => (hnone _ hm).elim⟩
+              intro j
+              show ((s.setObj _ _).obj j).queue.length ≤ s.cap
+              rw [obj_setObj]; split
+              · exact hi.bounded _
+              · exact hi.bounded j
+            · have h1 := cinv_setObj (gid := gid) (o' := { s.obj gid with members := [], chClosed := (if s.kind = .http then (s.obj gid).chClosed else true), lnOpen := false })
+                hi (hi.bounded gid) (fun _ => Or.inr (by simp [hk]))
+              exact cinv_congr h1 rfl rfl rfl (fun _ => rfl) (fun _ h => h)
+  | leaveDel m =>
+    simp only [step] at hs
+    split at hs
+    · cases hs
+    · split at hs
+      · cases hs
+      · split at hs
+        · cases hs
+        · cases hs; exact cinv_congr hi rfl rfl rfl (fun _ => rfl) (fun _ h => h)
   | accept c gid =>
     simp only [step] at hs
     split at hs
@@ -298,6 +330,8 @@ theorem step_cap {fx : Fix} {s s' : St} {l : Label} {r : Res} (hs : step fx s l 
   | lookup m g => simp only [step] at hs; (repeat' split at hs) <;> (cases hs; try rfl)
   | leaveL m gid => simp only [step] at hs; (repeat' split at hs) <;> (cases hs; try rfl)
   | leaveG m g => simp only [step] at hs; (repeat' split at hs) <;> (cases hs; try rfl)
+  | leaveEdit m gid => simp only [step] at hs; (repeat' split at hs) <;> (cases hs; try rfl)
+  | leaveDel m => simp only [step] at hs; (repeat' split at hs) <;> (cases hs; try rfl)
   | accept c gid => simp only [step] at hs; (repeat' split at hs) <;> (cases hs; try rfl)
   | handoff c m => simp only [step] at hs; (repeat' split at hs) <;> (cases hs; try rfl)
   | send c => simp only [step] at hs; (repeat' split at hs) <;> (cases hs; try rfl)
